@@ -222,7 +222,7 @@ def ruletest_event(i, rr, doc, entry="raw", lit=None, spec=None, shared=None):
     return e
 
 
-def validate_obs(rules_rr, doc, shared=None):
+def validate_obs(rules_rr, doc, shared=None, as_data=False):
     """run Schema(rules).validate(doc); returns (outcome, dict of observations).
     shared: a dict kept by the caller: the Schema object (and its rules) built on the first call is RE-USED on later
     calls with the same dict, so that anything a validation leaves behind in the schema shows in the next one."""
@@ -242,8 +242,9 @@ def validate_obs(rules_rr, doc, shared=None):
     order = []
     for r in schema.rules:
         order.append(next(j for j, x in enumerate(rules, 1) if x is r))
+    arg = valida.Data(doc) if as_data else doc
     with watch(objs=[schema], docs=[doc]) as w:
-        out, vd = outcome_of(lambda: schema.validate(doc))
+        out, vd = outcome_of(lambda: schema.validate(arg))
     o = {"outcome": out, "order": order, "writes": w.writes,
          "unchanged": bool(w.objs_unchanged and w.docs_unchanged)}
     if vd is not None:
@@ -266,12 +267,13 @@ def validate_obs(rules_rr, doc, shared=None):
     return out, o
 
 
-def validate_event(i, rules_rr, doc, perm=None, base=None, shared=None):
+def validate_event(i, rules_rr, doc, perm=None, base=None, shared=None, as_data=False):
     """perm: positions (1-based, into the base rule list) of the rules as given here"""
     e = blank(i, "validate")
     e["rules"] = [enc_rule_recipe(rr) for rr in rules_rr]
     e["doc"] = enc_val(doc)
-    out, o = validate_obs(rules_rr, doc, shared)
+    out, o = validate_obs(rules_rr, doc, shared, as_data)
+    e["entry"] = "Data" if as_data else "raw"
     e["outcome"] = out
     e["order"] = o["order"]
     e["writes"] = o["writes"]
